@@ -170,18 +170,90 @@ def combine(w, dirs, profs=("pub", "sub", "both")):
     return allp, os.path.join(w, "all.idx.json"), idx, src
 
 
+BATCH_LINES = int(os.environ.get("VERIF_BATCH_LINES", "60000"))       # TLC holds the whole JSON file in memory and parses it single-threaded: large runs are judged in batches
+
+
+def batches(trace, index, w, tag):
+    """splits trace/index into self-contained batches (a trace and the reference/twin trace its meta.ref names stay together);
+    yields (trace path, index path, number of the first trace - 1, number of traces)"""
+    idx = json.load(open(index))
+    if not idx or idx[-1][1] <= BATCH_LINES:
+        return [(trace, index, 0, len(idx))]
+    # ref of every trace (constant inside a trace; read from its first line)
+    refs = [0] * (len(idx) + 1)
+    starts = {a: k + 1 for k, (a, b) in enumerate(idx)}
+    with open(trace) as f:
+        for i, line in enumerate(f, 1):
+            k = starts.get(i)
+            if k and '"ref":' in line and '"ref":0' not in line:
+                refs[k] = json.loads(line).get("meta", {}).get("ref", 0) or 0
+    # a cut before trace k is allowed iff no trace >= k refers to a trace < k
+    minref = [len(idx) + 1] * (len(idx) + 2)
+    for k in range(len(idx), 0, -1):
+        minref[k] = min(minref[k + 1], refs[k] if refs[k] else len(idx) + 1)
+    cuts = [1]; lines0 = idx[0][0]
+    for k in range(2, len(idx) + 1):
+        if idx[k - 1][1] - lines0 + 1 > BATCH_LINES and minref[k] >= k and k > cuts[-1]:
+            cuts.append(k); lines0 = idx[k - 1][0]
+    cuts.append(len(idx) + 1)
+    out = []
+    with open(trace) as f:
+        cur = 0
+        for bi in range(len(cuts) - 1):
+            k0, k1 = cuts[bi], cuts[bi + 1] - 1            # traces k0..k1
+            a0, b1 = idx[k0 - 1][0], idx[k1 - 1][1]
+            bp = os.path.join(w, "%s.b%d.ndjson" % (tag, bi + 1)); ip = os.path.join(w, "%s.b%d.idx.json" % (tag, bi + 1))
+            with open(bp, "w") as o:
+                while cur < b1:
+                    line = f.readline(); cur += 1
+                    if cur < a0:
+                        continue
+                    if k0 > 1 and '"ref":' in line and '"ref":0' not in line:
+                        r = json.loads(line)
+                        if r.get("meta", {}).get("ref"):
+                            r["meta"]["ref"] -= k0 - 1
+                        line = json.dumps(r, separators=(",", ":")) + "\n"
+                    o.write(line)
+            json.dump([[a - a0 + 1, b - a0 + 1] for a, b in idx[k0 - 1:k1]], open(ip, "w"))
+            out.append((bp, ip, k0 - 1, k1 - k0 + 1))
+    return out
+
+
+def run_batches(bl, fn):
+    """runs fn(batch, workers) over the batches, at most 4 TLC processes at a time"""
+    if len(bl) == 1:
+        return [fn(bl[0], NCPU)]
+    import concurrent.futures as cf
+    par = min(4, len(bl))
+    with cf.ThreadPoolExecutor(par) as ex:
+        return list(ex.map(lambda b: fn(b, max(2, NCPU // par)), bl))
+
+
 def run_mon(pid, trace, index, name):
     cfg = "TraceMon_%s.cfg" % pid
-    r = run_tlc(name, TRACE, "TraceMon", cfg, env={"TRACE_FILE": trace, "INDEX_FILE": index}, timeout=3000, xmx="8g")
-    if not r["ok"]:
-        tlc_failed(r, "TraceMon " + pid)
+    w = os.path.dirname(trace)
+    bl = batches(trace, index, w, "mon")
+    def one(b, workers):
+        bp, ip, off, cnt = b
+        r = run_tlc("%s-%d" % (name, off), TRACE, "TraceMon", cfg, env={"TRACE_FILE": bp, "INDEX_FILE": ip}, timeout=3000, xmx="8g" if len(bl) == 1 else "5g", workers=workers)
+        if not r["ok"]:
+            tlc_failed(r, "TraceMon " + pid)
+        return r
+    rs = run_batches(bl, one)
     acc = {}; rej = {}
-    for v in verdict_lines(r["out"], ("ACCEPT", "REJECT")):
-        if v[0] == "ACCEPT":
-            acc[v[1]] = v
-        else:
-            rej.setdefault(v[1], v)
-    return acc, rej, r
+    tot = dict(generated=0, distinct=0, wall=0.0, out="")
+    for (bp, ip, off, cnt), r in zip(bl, rs):
+        for v in verdict_lines(r["out"], ("ACCEPT", "REJECT")):
+            v = list(v); v[1] += off
+            if v[0] == "ACCEPT":
+                acc[v[1]] = v
+            else:
+                rej.setdefault(v[1], v)
+        tot["generated"] += r["generated"]; tot["distinct"] += r["distinct"]; tot["wall"] += r["wall"]
+        if bp != trace:
+            os.remove(bp); os.remove(ip)
+    tot["batches"] = len(bl)
+    return acc, rej, tot
 
 
 def run_conf(w, profs, name):
@@ -191,19 +263,26 @@ def run_conf(w, profs, name):
         path = os.path.join(w, p + ".ndjson")
         if not os.path.exists(path) or os.path.getsize(path) == 0:
             continue
-        r = run_tlc(name + "-" + p, TRACE, "TraceConf", "TraceConf_%s.cfg" % p,
-                    env={"TRACE_FILE": path, "INDEX_FILE": os.path.join(w, p + ".idx.json")}, timeout=3000, xmx="8g")
-        if not r["ok"]:
-            tlc_failed(r, "TraceConf " + p)
-        seen = set()
-        for v in verdict_lines(r["out"], ("ACCEPT", "REJECT")):
-            if v[1] in seen:
-                continue
-            seen.add(v[1])
-            if v[0] == "ACCEPT":
-                ok += 1
-            else:
-                div.append((p, v[1], v[2], v[3], v[4]))
+        bl = batches(path, os.path.join(w, p + ".idx.json"), w, "conf-" + p)
+        def one(b, workers):
+            r = run_tlc("%s-%s-%d" % (name, p, b[2]), TRACE, "TraceConf", "TraceConf_%s.cfg" % p,
+                        env={"TRACE_FILE": b[0], "INDEX_FILE": b[1]}, timeout=3000, xmx="8g" if len(bl) == 1 else "5g", workers=workers)
+            if not r["ok"]:
+                tlc_failed(r, "TraceConf " + p)
+            return r
+        rs = run_batches(bl, one)
+        for (bp, ip, off, cnt), r in zip(bl, rs):
+            seen = set()
+            for v in verdict_lines(r["out"], ("ACCEPT", "REJECT")):
+                if v[1] in seen:
+                    continue
+                seen.add(v[1])
+                if v[0] == "ACCEPT":
+                    ok += 1
+                else:
+                    div.append((p, v[1] + off, v[2], v[3], v[4]))
+            if bp != path:
+                os.remove(bp); os.remove(ip)
     return ok, div
 
 
